@@ -1619,8 +1619,12 @@ func (h *Hashgraph) CheckBlock(block *Block, peerSet *peers.PeerSet) error {
 	}
 
 	validSignatures := 0
+	counted := make(map[string]bool)
 	for _, s := range block.GetSignatures() {
 		validatorHex := s.ValidatorHex()
+		if counted[validatorHex] {
+			continue
+		}
 		if _, ok := peerSet.ByPubKey[validatorHex]; !ok {
 			h.logger.WithFields(logrus.Fields{
 				"validator": validatorHex,
@@ -1629,6 +1633,7 @@ func (h *Hashgraph) CheckBlock(block *Block, peerSet *peers.PeerSet) error {
 		}
 		ok, _ := block.Verify(s)
 		if ok {
+			counted[validatorHex] = true
 			validSignatures++
 		}
 	}
